@@ -4,6 +4,7 @@ CONSTANT MaxH = 8
 CONSTANT Kernels = {3}
 CONSTANT Strides = {1}
 CONSTANT Dilations = {1}
+CONSTANT EmitCases = FALSE
 CONSTANT Shrink = 1
 CONSTANT Mutant = "none"
 INVARIANT NoEarlyOverwrite
